@@ -189,8 +189,13 @@ func (s *JavaFullListener) EnterInterfaceDeclaration(ctx *parser.InterfaceDeclar
 
 	if ctx.EXTENDS() != nil {
 		types := ctx.TypeList(0).(*parser.TypeListContext).AllTypeType()
-		for _, typ := range types {
-			currentNode.Extend = buildExtend(typ.GetText())
+		// an interface may extend several: the record has one place for a superclass, the others stand with the implemented ones
+		for i, typ := range types {
+			if i == 0 {
+				currentNode.Extend = buildExtend(typ.GetText())
+				continue
+			}
+			currentNode.Implements = append(currentNode.Implements, buildImplement(typ.GetText()))
 		}
 	}
 
